@@ -341,6 +341,26 @@ theorem C02_history_then_delete (f : Nat) (ops : List (Env × Op)) (s : St) (env
 example : (SMap.run (fun k => k.id.length) ⟨4, fun _ => []⟩
     [.insert ⟨0, "a"⟩ ⟨.int 1, false, 0, false, 0⟩, .insert ⟨0, "a"⟩ ⟨.int 2, false, 0, false, 1⟩, .get ⟨1, "a"⟩]).length = 3 := by decide
 
+theorem runOps_append (f : Nat) (a b : List (Env × Op)) (s : St) : runOps f s (a ++ b) = runOps f (runOps f s a) b := by
+  induction a generalizing s with
+  | nil => rfl
+  | cons x a ih => obtain ⟨env, op⟩ := x; exact ih _
+
+/-- **One handle for the life of the entry**: once `k` is cached, every `get_cached`, `load` hit and `get_or_insert` issued at any
+two points of a history without deletion of `k` — under whatever source contents and loaders — answers the same handle: same
+address, same value. (Over `World.step`, i.e. without reloads; with reloads the address is still the same: C01 / C07.) -/
+theorem C02_same_handle_along_history (f : Nat) (ops1 ops2 : List (Env × Op)) (s : St) (k : Key) (c : Cell) (env env' : Env) (v : Val)
+    (hd : ∀ eo ∈ ops1 ++ ops2, deletes k eo.2 = false) (h : s.lookup k = some c) :
+    (step env f (runOps f s ops1) (.getCached k)).2 = .handle c.addr c.val ∧
+    (step env' f (runOps f s (ops1 ++ ops2)) (.getCached k)).2 = .handle c.addr c.val ∧
+    (step env' f (runOps f s (ops1 ++ ops2)) (.getOrInsert k v)).2 = .handle c.addr c.val := by
+  have h1 := C02_history_keeps f ops1 s k c (fun e he => hd e (List.mem_append_left _ he)) h
+  have h2 := C02_history_keeps f (ops1 ++ ops2) s k c hd h
+  refine ⟨?_, ?_, ?_⟩
+  · simp only [step, h1]
+  · simp only [step, h2]
+  · simp only [step, h2]
+
 /-! Non-vacuity of the history theorems: a concrete source, a history with loads of three keys (same id under two
 types, another id), a `get_or_insert`, and deletions of the other keys only — the first entry is still at address 0. -/
 def exEnv (n : Int) : Env :=
